@@ -839,7 +839,7 @@ def evaluator_arms(repo):
     files = [(ev, os.path.join(repo, 'src', 'eval_' + ev, 'ast.rs')) for ev in EVS] + [('number.rs', os.path.join(repo, 'src', 'eval_number', 'number.rs'))]
     for ev, p in files:
         src = strip_hooks(non_test(read_rs(p)))
-        arms, other = {}, src
+        arms, other, raw = {}, src, {}
         body = fn_body(src, 'eval') if ev != 'number.rs' else None
         if body:
             other = src.replace(body, '', 1)
@@ -851,11 +851,30 @@ def evaluator_arms(repo):
                     k = re.match(r'\w+', pat)
                     k = k.group(0) if k else pat
                     arms[k] = arms.get(k, '') + norm(pat + '=>' + b)
+                    raw[k] = raw.get(k, '') + ' ' + b
             else:
                 other = src
         lits = sorted(set(x.replace('_', '') for x in re.findall(r'(?<![\w.])\d[\d_]*(?:\.\d[\d_]*)?(?:e-?\d+)?', src)))
+        # helper functions outside `eval` (gamma, compare, gcd ...): their text, and which arms mention them (transitively)
+        helpers = {}
+        for m in re.finditer(r'\bfn\s+(\w+)\s*[(<]', other):
+            hb = fn_body(other, m.group(1))
+            if m.group(1) != 'eval' and hb is not None:
+                helpers[m.group(1)] = hb
+        uses = {}
+        for k, v in raw.items():
+            seen, todo = set(), [h for h in helpers if re.search(r'\b%s\b' % re.escape(h), v)]
+            while todo:
+                h = todo.pop()
+                if h in seen:
+                    continue
+                seen.add(h)
+                todo += [g for g in helpers if g not in seen and re.search(r'\b%s\b' % re.escape(g), helpers[h])]
+            if seen:
+                uses[k] = sorted(seen)
         out[ev] = {'arms': {k: hashlib.sha256(v.encode()).hexdigest()[:16] for k, v in arms.items()},
-                   'other': hashlib.sha256(norm(other).encode()).hexdigest()[:16], 'literals': lits}
+                   'other': hashlib.sha256(norm(other).encode()).hexdigest()[:16], 'literals': lits,
+                   'helpers': {h: hashlib.sha256(norm(t).encode()).hexdigest()[:16] for h, t in helpers.items()}, 'uses': uses}
     # numeric literals of every other source file (lexer, parser, utils, entry points): a new constant is a hint for the search
     for root, _, fs in os.walk(os.path.join(repo, 'src')):
         for f in sorted(fs):
@@ -993,6 +1012,10 @@ def main():
         for ev, cur_ev in ca.items():
             rec = ra.get(ev, {'arms': {}, 'other': None, 'literals': []})
             ch = sorted(k for k in set(cur_ev['arms']) | set(rec['arms']) if cur_ev['arms'].get(k) != rec['arms'].get(k))
+            # arms that reach a changed (or new) helper count as changed
+            hch = set(h for h in set(cur_ev.get('helpers', {})) | set(rec.get('helpers', {})) if cur_ev.get('helpers', {}).get(h) != rec.get('helpers', {}).get(h))
+            if hch and 'helpers' in rec:
+                ch = sorted(set(ch) | set(k for k, hs in cur_ev.get('uses', {}).items() if hch & set(hs)))
             newl = [x for x in cur_ev['literals'] if x not in rec['literals']]
             if ch or (cur_ev['other'] != rec['other'] and not ev.startswith('src/')) or newl:
                 loc[ev] = {'arms': ch, 'other_changed': cur_ev['other'] != rec['other'], 'new_literals': newl}
